@@ -4,7 +4,7 @@ Level "other" (DESIGN §8.1: exploration with a *proved* oracle).
 proof : lean/UsualProofs/Props/C04.lean proves the REFERENCE (lean/Usual/C04/Regex.lean):
         `ends` is sound and complete for the declarative semantics `Matches`, `llmatch` is exactly
         the leftmost-longest answer, and the parser models invert the renderers on the
-        bracket-free fragments of ERE and BRE.  Nothing is proved about the C back-tracking matcher.
+        full supported syntax (bracket expressions rendered from their bitmaps).  Nothing is proved about the C back-tracking matcher.
 T-tie : lean/Usual/Gen/C04Tab.lean (error codes, flag bits, MAX_COUNT, MAX_GROUPS, ctype_list
         names) is regenerated from usual/regex.[ch] on every run (c04_gen.py).
 C-tie : harness/C04/h.c (internal regex forced with -DUSE_INTERNAL_REGEX, exact-size heap
@@ -783,6 +783,57 @@ def normal_form(t, ere):
     return body(t)
 
 
+def run_rerender(ck, rn, dcmd, hcmd, cases):
+    """tie of the Lean renderers (incl. bracket expressions from bitmaps, Usual.C04.renderCls) to the C
+    code: the driver parses a pattern, renders the stored tree and says whether the new text compiles to the
+    same tree; if so the real regcomp/regexec must treat both texts alike (same re_nsub, same pmatch arrays
+    on the same subjects).  cases = (cflags, pattern, subjects)."""
+    rlines = ["r %d %s" % (cf, vf.hexs(pat)) for cf, pat, _ in cases]
+    if not rlines:
+        return
+    rc, out, err = ck.run(dcmd, input_text="\n".join(rlines) + "\n")
+    res = out.split("\n")
+    ylines, meta = [], []
+    stats = {"patterns": len(rlines), "same_tree": 0, "in_proved_domain": 0, "differs_under_flags": 0, "not_compiled": 0}
+    for (cf, pat, ss), r in zip(cases, res):
+        m = re.match(r"^ok wf=(true|false) same=(true|false) (\S+)$", r)
+        if not m:
+            stats["not_compiled"] += 1
+            continue
+        if m.group(1) == "true":
+            stats["in_proved_domain"] += 1
+            if m.group(2) != "true" and (cf & (ICASE | NEWLINE)) == 0:
+                ck.report("int", {"label": "rerender", "ops": ["r %d %s" % (cf, vf.hexs(pat))], "model": [r],
+                                  "what": "parse(render(tree)) differs from the tree without flags (contradicts parse_render_*_noflags)"})
+        if m.group(2) != "true":
+            stats["differs_under_flags"] += 1
+            continue
+        stats["same_tree"] += 1
+        txt = bytes.fromhex(m.group(3)) if m.group(3) != "-" else b""
+        if txt == pat or not txt:
+            continue
+        ylines.append(xline(cf, pat, [0, 1, "m"], [0, 48], ss, op="x"))
+        ylines.append(xline(cf, txt, [0, 1, "m"], [0, 48], ss, op="x"))
+        meta.append((cf, pat, txt))
+    if ylines:
+        c_all, m_all = rn.both_parallel(ylines)
+        for i, (cf, pat, txt) in enumerate(meta):
+            a, b = c_all[2 * i], c_all[2 * i + 1]
+            ck.count(2)
+            if a != b and "slow" not in a and "slow" not in b:
+                ck.report("obs", {"label": "rerender", "ops": [ylines[2 * i], ylines[2 * i + 1]], "pattern": repr(pat),
+                                  "rerendered": repr(txt), "cflags": cf, "impl": [a[:200], b[:200]],
+                                  "what": "regcomp/regexec treat a pattern and the Lean re-rendering of its parsed tree differently"})
+                break
+            for c, mm in ((a, m_all[2 * i]), (b, m_all[2 * i + 1])):
+                if rn.differs(c, mm) == "obs":
+                    ck.report("obs", {"label": "rerender:model", "ops": [ylines[2 * i], ylines[2 * i + 1]], "impl": [c[:200]],
+                                      "model": [mm[:200]]})
+                    break
+    stats["compared_with_c"] = len(meta)
+    ck.cov["rerender"] = stats
+
+
 def run_roundtrip(ck, dcmd, trees):
     """driver op `t`: Lean renderERE/BRE of the normal form equals the generator's text, and the
     Lean parser maps the text back to the (case-folded) tree — the run-time instance of
@@ -823,7 +874,7 @@ def run(ck):
         "reference (rc and pmatch[0]) on every pattern without a repeated group.  Kernel-checked Lean theorems establish that the reference used as oracle is "
         "right: `ends` is sound and complete for the declarative POSIX semantics `Matches` (anchors/flags in context), "
         "`llmatch` is exactly the leftmost-longest overall match (and `none` iff no substring matches), and the parser "
-        "models invert the ERE/BRE renderers on the bracket-free fragments.  The C matcher is not proved: regcomp rc/"
+        "models invert the ERE/BRE renderers on the full supported syntax (bracket expressions from bitmaps).  The C matcher is not proved: regcomp rc/"
         "re_nsub and regexec rc/pmatch[0] of the real code (ASan+UBSan build, exact-size heap strings, calloc/free "
         "accounting) are compared with the oracle on a bounded-exhaustive family (all trees up to a node bound x all "
         "subjects up to a length bound x flag sets x nmatch in {0,1,nsub+2}), random trees, byte mutations and hand-made "
@@ -853,7 +904,7 @@ def run(ck):
         "subjects over {a,b,\\n} up to length L (quick 5; thorough 6 for trees up to 4 nodes, 3..5 for 5-node trees), the "
         "exec-flag sets that can reach the pattern, nmatch in {0,1,nsub+2}; grammar-directed family rep-group-tail (a repeated "
         "group with a 1-3 atom/alternative body over {a,b,.}, one level of nesting, followed by an optional/overlapping tail) x all "
-        "subjects over {a,b} up to length 6 (quick: a seed-rotated third of the family); random trees up to 12 "
+        "subjects over {a,b} up to length 6; random trees up to 12 "
         "nodes with bracket expressions/high bytes/escaped specials and subjects up to 40; byte mutations of rendered "
         "patterns and hand-made members of every regerror class; AT&T table.  A case is distinct = (cflags, pattern "
         "bytes); non-trivial = compiles and is executed on at least one subject")
@@ -976,8 +1027,6 @@ def run(ck):
     # ---- grammar-directed family: repeated group + optional/overlapping tail
     fam = rep_group_tail_trees()
     nfam = len(fam)
-    if ck.tier == "quick" and not intensify:
-        fam = [t for i, t in enumerate(fam) if (i + ck.seed) % 3 == 0]       # seed-rotated third
     fsubs = subjects([0x61, 0x62], 6)
     lines = []
     for t in fam:
@@ -994,7 +1043,7 @@ def run(ck):
 
     # ---- random trees
     nrand = ck.scale(1500, 25000) * (4 if intensify else 1)
-    lines, rt_trees, pm_cases = [], [], []
+    lines, rt_trees, pm_cases, rr_cases = [], [], [], []
     for i in range(nrand):
         t = rand_tree(rng, 2 + rng.below(11))
         ere = rng.chance(2, 3) or has(t, "alt")
@@ -1010,9 +1059,12 @@ def run(ck):
             rt_trees.append(t)
         if i % 3 == 0:
             pm_cases.append((cf & ~NOSUB, pat, ss[0]))
+        if has(t, "cls") or i % 4 == 1:
+            rr_cases.append((cf, pat, ss[:6]))
     for ch in vf.chunks(lines, 16 * 300):
         rn.run_x(ch, "random")
     run_pmatch_sample(ck, rn, dcmd, hcmd, pm_cases)
+    run_rerender(ck, rn, dcmd, hcmd, rr_cases)
     run_roundtrip(ck, dcmd, rt_trees + [t for n in range(1, 4) for t in enum_trees(n)])
 
     # ---- byte mutations of rendered patterns (robustness: no crash/leak; rc agrees with the parser model)
@@ -1041,9 +1093,9 @@ def run(ck):
         "sub-match offsets: pmatchOk_spec / submatch_clause_satisfiable are proved about the reference (the clause is "
         "satisfiable exactly when a match exists); the values C reports are monitored with pmatchOk, compared with the "
         "matcher model and with the AT&T table, not proved",
-        "parse_render proved for the bracket-free fragments of ERE and BRE (parse_render_ere_partial, "
-        "parse_render_bre_partial); bracket expressions (op_class) are modelled and compared with regcomp differentially, "
-        "there is no bitmap->bracket renderer to invert",
+        "parse_render_ere / parse_render_bre are proved for the full supported syntax incl. bracket expressions rendered from "
+        "their bitmaps (ranges, named classes, negation, ] [ ^ - placement); under REG_ICASE/REG_NEWLINE the result is the "
+        "stored tree foldRe fl r (identity without flags: *_noflags); the domain is the parser's tree shape (wfE/wfB)",
     ]
     if ck.tier != "quick" and ck.proof_ok:
         ck.leanchecker(PROP_MODULES[:1])
